@@ -820,7 +820,97 @@ pub fn generate(seed: u64, gp: &GenParams) -> Scenario {
         }
         rounds.push(Round { edits, plan });
     }
-    Scenario { seed, profile: gp.profile.to_string(), cfg, defs, rounds }
+    let mut sc = Scenario { seed, profile: gp.profile.to_string(), cfg, defs, rounds };
+    if gp.allow_semantic {
+        let mut rm = root.fork("merge");
+        if rm.chance(1, if sc.cfg.names == Names::Parts { 8 } else { 40 }) {
+            merge_two_jobs(&mut sc, &mut rm);
+        }
+    }
+    sc
+}
+
+/// Two single-file jobs X < Y of the same kind become ONE job that produces both files (and, half of
+/// the time, two jobs again later): definition X gets Y's file name as a second part; at round r Y is
+/// removed, X's parts become both, Y's consumers depend on X instead (consuming Y's file). Under the
+/// production naming the consumers' input lists do not change, so a consumer of both then has records
+/// under two old names of the one upstream it has now.
+fn merge_two_jobs(sc: &mut Scenario, r: &mut Rng) {
+    if sc.rounds.len() < 2 {
+        return;
+    }
+    let at = 1 + r.below(sc.rounds.len() - 1);
+    // graph as it is before the edits of round `at`
+    let mut g = GraphState::default();
+    for round in sc.rounds.iter().take(at) {
+        for e in round.edits.iter() {
+            g.apply(&sc.defs, e);
+        }
+    }
+    let file_single = |d: usize| sc.defs[d].universe.len() == 1 && g.present.contains(&d) && g.kind_of(&sc.defs, d) != Kind::Always;
+    let mut pairs: Vec<(usize, usize, usize)> = Vec::new(); // (shared consumers, x, y)
+    let n = sc.defs.len();
+    for x in 0..n {
+        for y in x + 1..n {
+            if file_single(x) && file_single(y) && g.kind_of(&sc.defs, x) == g.kind_of(&sc.defs, y) && !g.edges.contains_key(&(y, x)) {
+                let dx = g.downstreams(x);
+                let shared = g.downstreams(y).iter().filter(|d| dx.contains(d)).count();
+                pairs.push((shared, x, y));
+            }
+        }
+    }
+    if pairs.is_empty() {
+        return;
+    }
+    // prefer a pair with a common consumer
+    pairs.sort();
+    let best = pairs.last().unwrap().0;
+    let cands: Vec<(usize, usize, usize)> = pairs.into_iter().filter(|p| p.0 == best || r.chance(1, 6)).collect();
+    let (_, x, y) = *r.pick(&cands);
+    // definition x can now also produce y's file (universe stays sorted: x < y and names are j<index>)
+    let yname = sc.defs[y].universe[0].clone();
+    if sc.defs[x].universe.contains(&yname) || sc.defs[x].universe[0] >= yname {
+        return;
+    }
+    // a job's behaviour is a function of the FILES it reads, whoever writes them: "ignores the inputs
+    // coming from definition u" is keyed by definition, so nobody may ignore x or y once a file moves
+    // from the one to the other
+    for d in sc.defs.iter_mut() {
+        for ig in d.ignores.iter_mut() {
+            ig.retain(|u| *u != x && *u != y);
+        }
+    }
+    sc.defs[x].universe.push(yname);
+    let yc = sc.defs[y].constant[0];
+    sc.defs[x].constant.push(yc);
+    let yi = sc.defs[y].ignores[0].clone();
+    sc.defs[x].ignores.push(yi);
+    let mut edits = vec![Edit::RemoveJob { def: y }, Edit::SetParts { def: x, parts: vec![0, 1] }];
+    let mut new_edges: Vec<usize> = Vec::new();
+    for d in g.downstreams(y) {
+        if g.edges.contains_key(&(d, x)) {
+            // consumer of both: its edge to x now covers both files
+            edits.push(Edit::AddEdge { down: d, up: x, consumed: Vec::new() });
+        } else {
+            edits.push(Edit::AddEdge { down: d, up: x, consumed: vec![1] });
+            new_edges.push(d);
+        }
+    }
+    for u in g.upstreams(y) {
+        if u < x && !g.edges.contains_key(&(x, u)) {
+            edits.push(Edit::AddEdge { down: x, up: u, consumed: Vec::new() });
+        }
+    }
+    sc.rounds[at].edits.extend(edits);
+    // ... and apart again
+    if at + 1 < sc.rounds.len() && r.chance(1, 2) {
+        let back = at + 1 + r.below(sc.rounds.len() - at - 1);
+        let mut e2 = vec![Edit::SetParts { def: x, parts: vec![0] }, Edit::AddJob { def: y }];
+        for d in new_edges {
+            e2.push(Edit::RemoveEdge { down: d, up: x });
+        }
+        sc.rounds[back].edits.extend(e2);
+    }
 }
 
 fn draw_parts(r: &mut Rng, u: usize) -> Vec<u8> {
